@@ -93,6 +93,10 @@ def fee_lists(r, n_random=400):
     for e in bad_entries:
         lines.append(fee_list_line(10 ** 6, "uusdc", [e]))
         lines.append(fee_list_line(10 ** 6, "uusdc", [(U[2], "b", 100), e]))
+        # …wherever it stands in the list, also behind an entry of the same recipient
+        lines.append(fee_list_line(10 ** 6, "uusdc", [e, (U[2], "b", 100)]))
+        lines.append(fee_list_line(10 ** 6, "uusdc", [(U[2], "b", 100), e, (U[3], "a", 5)]))
+        lines.append(fee_list_line(10 ** 6, "uusdc", [(e[0], "b", 100), e]))
     # sum overflow
     lines.append(fee_list_line(2 ** 256 - 1, "uusdc", [(good, "a", 2 ** 255), (U[1], "a", 2 ** 255)]))
     lines.append(fee_list_line(2 ** 256 - 1, "uusdc", [(good, "a", 2 ** 255), (U[1], "a", 2 ** 255 - 1)]))
